@@ -156,11 +156,19 @@ impl Key {
 
     /// Gets the hash value for this key.
     pub fn get_hash(&self) -> u64 {
+        #[cfg(metrics_verif)]
+        crate::__verif::yield_point(301);
         if self.hashed.load(Ordering::Acquire) {
+            #[cfg(metrics_verif)]
+            crate::__verif::yield_point(302);
             self.hash.load(Ordering::Acquire)
         } else {
             let hash = generate_key_hash(&self.name, &self.labels);
+            #[cfg(metrics_verif)]
+            crate::__verif::yield_point(303);
             self.hash.store(hash, Ordering::Release);
+            #[cfg(metrics_verif)]
+            crate::__verif::yield_point(304);
             self.hashed.store(true, Ordering::Release);
             hash
         }
@@ -210,8 +218,16 @@ impl Clone for Key {
         Self {
             name: self.name.clone(),
             labels: self.labels.clone(),
-            hashed: AtomicBool::new(self.hashed.load(Ordering::Acquire)),
-            hash: AtomicU64::new(self.hash.load(Ordering::Acquire)),
+            hashed: AtomicBool::new({
+                #[cfg(metrics_verif)]
+                crate::__verif::yield_point(305);
+                self.hashed.load(Ordering::Acquire)
+            }),
+            hash: AtomicU64::new({
+                #[cfg(metrics_verif)]
+                crate::__verif::yield_point(306);
+                self.hash.load(Ordering::Acquire)
+            }),
         }
     }
 }
